@@ -32,7 +32,7 @@ from .ethernetip import SendUnitDataRequestPacket, SendUnitDataResponsePacket
 from .util import parse_read_reply, request_path, tag_request_path
 
 from ..cip import ClassCode, Services, DataTypes, UINT, UDINT, ULINT
-from ..const import STRUCTURE_READ_REPLY
+from ..const import STRUCTURE_READ_REPLY, SUCCESS
 from ..exceptions import RequestError
 
 
@@ -406,6 +406,9 @@ class MultiServiceResponsePacket(SendUnitDataResponsePacket):
 
     def _parse_reply(self):
         super()._parse_reply()
+        if self.service_status not in (None, SUCCESS, 0x1E):
+            # refused as a whole: no service replies follow, the packet's own status is the error to report
+            return
         try:
             num_replies = UINT.decode(self.data)
             offset_data = self.data[2 : 2 + 2 * num_replies]
